@@ -1,0 +1,89 @@
+//go:build verif
+
+// Verification hooks (package-internal access for /verif harness engine `bfd`, property C16).
+// Compiled only with `-tags verif`; no effect on normal builds.
+
+package bfd
+
+import (
+	"fmt"
+	"time"
+
+	"github.com/gopacket/gopacket/layers"
+)
+
+type verifConcFixedGen struct{ pct int }
+
+// Generate returns the fixed percentage if it lies in [x, y), else the nearest bound.
+func (g verifConcFixedGen) Generate(x, y int) int {
+	if g.pct < x {
+		return x
+	}
+	if g.pct >= y {
+		return y - 1
+	}
+	return g.pct
+}
+
+// VerifConcComputeInterval calls the real `computeInterval` with a generator that returns pct
+// (clamped to the range the function asks for). A panic is reported as ok=false.
+func VerifConcComputeInterval(interval time.Duration, detectMult uint, pct int) (d time.Duration, ok bool) {
+	defer func() {
+		if r := recover(); r != nil {
+			d, ok = 0, false
+		}
+	}()
+	return computeInterval(interval, detectMult, verifConcFixedGen{pct}), true
+}
+
+// VerifConcJitterConsts returns (minJitter, minJitterDetectMult1, maxJitter).
+func VerifConcJitterConsts() [3]int { return [3]int{minJitter, minJitterDetectMult1, maxJitter} }
+
+// VerifConcTransition calls the real state machine `transition`. A panic of the real function
+// (undefined state or event) is reported as ok=false.
+func VerifConcTransition(st, ev int) (next int, ok bool) {
+	defer func() {
+		if r := recover(); r != nil {
+			next, ok = -1, false
+		}
+	}()
+	return int(transition(state(st), event(ev))), true
+}
+
+// VerifConcShouldDiscard calls the real `shouldDiscard`.
+func VerifConcShouldDiscard(pkt *layers.BFD) bool {
+	d, _ := shouldDiscard(pkt)
+	return d
+}
+
+// VerifConcLocalState reads the session's local state (concurrency-safe getter of the session).
+func VerifConcLocalState(s *Session) int {
+	return int(s.getLocalState())
+}
+
+// VerifConcRemoteDiscriminator reads the learned remote discriminator.
+func VerifConcRemoteDiscriminator(s *Session) uint32 {
+	return uint32(s.getRemoteDiscriminator())
+}
+
+// VerifConcEventNames lists the event constants in numeric order (for table extraction).
+func VerifConcEventNames() []string {
+	evs := []event{eventAdminDown, eventDown, eventInit, eventUp, eventTimer, eventAdminUp}
+	out := make([]string, len(evs))
+	for i, e := range evs {
+		out[i] = fmt.Sprintf("%d:%s", int(e), e.String())
+	}
+	return out
+}
+
+// VerifConcStateConsts returns the numeric values of (AdminDown, Down, Init, Up).
+func VerifConcStateConsts() [4]int {
+	return [4]int{int(stateAdminDown), int(stateDown), int(stateInit), int(stateUp)}
+}
+
+// VerifConcEventConsts returns the numeric values of
+// (AdminDown, Down, Init, Up, Timer, AdminUp).
+func VerifConcEventConsts() [6]int {
+	return [6]int{int(eventAdminDown), int(eventDown), int(eventInit), int(eventUp),
+		int(eventTimer), int(eventAdminUp)}
+}
